@@ -240,10 +240,12 @@ Theorem time2_neg59_refuted :
     /\ dec_time2 (enc_time2 true h mi s us) = Some (true, 0, 0, 63, 500000).
 Proof. exists 0, 0, 59, 500000. repeat split; vm_compute; reflexivity. Qed.
 
-(* ---- DECIMAL(M,M): the serializer returns an error for every value ---- *)
-Theorem decimal_pp_refuted :
-  exists prec scale neg ip fp, in_domain (VDecimal prec scale neg ip fp) = true /\ model_enc (VDecimal prec scale neg ip fp) = None.
-Proof. exists 5, 5, false, 0, 12345. split; vm_compute; reflexivity. Qed.
+(* regression (was decimal_pp_refuted before c26eb40): DECIMAL(5,5) values are emitted and read back *)
+Example decimal_pp_regression :
+  forallb (fun v => match model_enc v with Some b => decodes_to v b | None => false end)
+    [VDecimal 5 5 false 0 12345; VDecimal 5 5 true 0 12345; VDecimal 9 9 false 0 999999999; VDecimal 10 10 true 0 1; VDecimal 1 1 false 0 0;
+     VDecimal 30 30 true 0 (10 ^ 30 - 1)] = true.
+Proof. vm_compute. reflexivity. Qed.
 
 (* ---- NEWDECIMAL: decode (encode v) = v for every precision, scale and value ---- *)
 Lemma to_base_bound B k n : 0 < B -> Forall (fun d => d < B) (to_base B k n).
@@ -383,27 +385,40 @@ Section DecimalShape.
     f_equal; lia.
   Qed.
 
-  (* the first emitted byte has its top bit clear (the sign lives there) *)
+  (* the first emitted byte has its top bit clear (the sign lives there) — also when there are no integer digits *)
   Lemma raw_head ip fp :
-    scale <= prec -> prec <> scale -> ip < pow10 (prec - scale) ->
+    scale <= prec -> 1 <= prec -> ip < pow10 (prec - scale) -> fp < pow10 scale ->
     exists b0 r, enc_decimal_raw prec scale ip fp = b0 :: r /\ b0 < 128.
   Proof.
-    intros Hs Hne Hip. destruct (shape_facts Hs) as [Hx [Hy [Ei Ef]]].
+    intros Hs Hne Hip Hfp. destruct (shape_facts Hs) as [Hx [Hy [Ei Ef]]].
     unfold enc_decimal_raw. fold intg intg0 frac0 intg0x frac0x.
-    pose proof (pow10_pos (9 * intg0)) as P1.
+    pose proof (pow10_pos (9 * intg0)) as P1. pose proof (pow10_pos frac0x) as P2.
     assert (Hip' : ip < pow10 (9 * intg0) * pow10 intg0x).
     { rewrite <- pow10_add. fold intg in Hip. rewrite Ei in Hip. exact Hip. }
-    destruct (N.eq_dec intg0x 0) as [Hz|Hz].
-    - (* no leftover digits: the first byte is the top byte of the first full group *)
-      assert (Hi0 : 0 < intg0) by (unfold intg in *; lia).
-      rewrite Hz. change (be_bytes (dig2bytes 0) (ip / pow10 (9 * intg0))) with (@nil N). cbn [app].
-      destruct (N.to_nat intg0) as [|k] eqn:Ek; [lia|].
-      destruct (to_base_head B9 k (ip mod pow10 (9 * intg0)) ltac:(reflexivity)) as [t Ht]. rewrite Ht.
-      cbn [flat_map app].
-      set (g := (ip mod pow10 (9 * intg0) / B9 ^ N.of_nat k) mod B9).
+    assert (Hfp' : fp < pow10 frac0x * pow10 (9 * frac0)).
+    { rewrite <- pow10_add. rewrite Ef in Hfp. rewrite N.add_comm. exact Hfp. }
+    (* head of a non-empty run of 9-digit groups *)
+    assert (Hgroups : forall k m rest, exists b t, flat_map (be_bytes 4) (to_base B9 (S k) m) ++ rest = b :: t /\ b < 128).
+    { intros k m rest. destruct (to_base_head B9 k m ltac:(reflexivity)) as [t Ht]. rewrite Ht. cbn [flat_map].
+      set (g := (m / B9 ^ N.of_nat k) mod B9).
       assert (Hg : g < B9) by (apply N.mod_lt; discriminate).
       destruct (be_head_small 3 g) as [b [t' [Eb Hb]]]; [change (pow256 4) with 4294967296; unfold B9 in Hg; lia|].
-      rewrite Eb. cbn [app]. eexists; eexists; split; [reflexivity|exact Hb].
+      rewrite Eb. cbn [app]. eexists; eexists; split; [reflexivity|exact Hb]. }
+    destruct (N.eq_dec intg0x 0) as [Hz|Hz].
+    - rewrite Hz. change (be_bytes (dig2bytes 0) (ip / pow10 (9 * intg0))) with (@nil N). cbn [app].
+      destruct (N.to_nat intg0) as [|k] eqn:Ek.
+      + (* no integer digits at all: DECIMAL(M,M) *)
+        assert (Hi0 : intg0 = 0) by lia. cbn [to_base flat_map app].
+        destruct (N.to_nat frac0) as [|k'] eqn:Ek'.
+        * assert (Hf0 : frac0 = 0) by lia. cbn [to_base flat_map app].
+          assert (Hfx : 0 < frac0x) by (unfold intg in *; lia).
+          destruct (dig_facts frac0x Hy) as [_ D]. destruct (D Hfx) as [D2 [j Ej]]. rewrite Ej.
+          destruct (be_head_small j (fp mod pow10 frac0x)) as [b [t' [Eb Hb]]].
+          { rewrite <- Ej. eapply N.lt_le_trans; [|exact D2].
+            assert (fp mod pow10 frac0x < pow10 frac0x) by (apply N.mod_lt; lia). lia. }
+          rewrite Eb. eexists; eexists; split; [reflexivity|exact Hb].
+        * apply Hgroups.
+      + apply Hgroups.
     - destruct (dig_facts intg0x Hx) as [_ D]. destruct (D ltac:(lia)) as [D2 [k Ek]].
       rewrite Ek.
       destruct (be_head_small k (ip / pow10 (9 * intg0))) as [b [t' [Eb Hb]]].
@@ -426,20 +441,19 @@ Proof.
   apply N.bits_above_log2. apply N.log2_lt_pow2; [lia|]. exact H.
 Qed.
 
-(* full statement: for every DECIMAL(precision, scale) with an integer part (precision > scale — the
-   precision = scale class is the finding decimal_pp_refuted) and every value of the column. *)
+(* full statement: for every DECIMAL(precision, scale) — precision = scale included since c26eb40 — and every value *)
 Theorem decimal_roundtrip prec scale neg ip fp :
-  in_domain (VDecimal prec scale neg ip fp) = true -> prec <> scale ->
+  in_domain (VDecimal prec scale neg ip fp) = true ->
   exists b, enc_decimal prec scale neg ip fp = Some b /\ decodes_to (VDecimal prec scale neg ip fp) b = true.
 Proof.
-  cbn [in_domain decodes_to]. intros H Hne. repeat (apply andb_true_iff in H as [H ?]).
+  cbn [in_domain decodes_to]. intros H. repeat (apply andb_true_iff in H as [H ?]).
   repeat match goal with X : (_ <=? _) = true |- _ => apply N.leb_le in X end.
   repeat match goal with X : (_ <? _) = true |- _ => apply N.ltb_lt in X end.
   assert (Hs : scale <= prec) by assumption.
-  destruct (raw_head prec scale ip fp Hs Hne ltac:(assumption)) as [b0 [r [Eraw Hb0]]].
+  destruct (raw_head prec scale ip fp Hs ltac:(assumption) ltac:(assumption) ltac:(assumption)) as [b0 [r [Eraw Hb0]]].
   pose proof (raw_length prec scale ip fp) as Hlen.
   pose proof (raw_roundtrip prec scale ip fp Hs ltac:(assumption) ltac:(assumption)) as Hrt.
-  unfold enc_decimal. assert (E0 : (prec - scale =? 0) = false) by (apply N.eqb_neq; lia). rewrite E0, Eraw.
+  unfold enc_decimal. rewrite Eraw.
   rewrite Eraw in Hlen, Hrt.
   assert (T0 : N.testbit b0 7 = false) by (apply testbit7_small; exact Hb0).
   assert (T1 : N.testbit (N.lxor b0 128) 7 = true) by (rewrite N.lxor_spec, T0; reflexivity).
@@ -660,12 +674,25 @@ Example json_examples :
      JArr (repeat JNull 300)] = true.
 Proof. vm_compute. reflexivity. Qed.
 
-(* ---- the oracle holds on the model: for every in-domain value outside the two still-open refuted classes (negative TIME xx:xx:59.f, DECIMAL(M,M)) (and, for JSON,
+(* ---- a row: the INT column after an ENUM column is read at the right offset, for every member count ---- *)
+Theorem row_roundtrip members v z :
+  in_domain (VRow members v z) = true -> decodes_to (VRow members v z) (enc_enum members v ++ enc_int 4 z) = true.
+Proof.
+  intros H. cbn [in_domain] in H. repeat (apply andb_true_iff in H as [H ?]).
+  cbn [decodes_to].
+  assert (L : length (enc_enum members v) = enum_width members) by (unfold enc_enum; apply le_length).
+  rewrite (firstn_app_exact _ _ _ L), (skipn_app_exact _ _ _ L).
+  apply andb_true_iff. split.
+  - apply (enum_roundtrip members v). cbn [in_domain]. repeat (apply andb_true_iff; split); assumption.
+  - apply (int_roundtrip 4 true z). cbn [in_domain]. apply andb_true_iff. split; [reflexivity|].
+    change (pow256 4 / 2) with 2147483648. apply andb_true_iff. split; assumption.
+Qed.
+
+(* ---- the oracle holds on the model: for every in-domain value outside the still-open refuted class (negative TIME xx:xx:59.f) (and, for JSON,
    inside the proved scalar class) the model's bytes + metadata satisfy the executable property ---- *)
 Definition proved_class (v : value) : Prop :=
   match v with
   | VTime neg _ _ s us => neg = true -> 0 < us -> s < 59
-  | VDecimal prec scale _ _ _ => prec <> scale
   | VJson d => jv_scalar d = true
   | _ => True
   end.
@@ -706,7 +733,7 @@ Proof.
     - apply datetime2_roundtrip; exact Hd.
     - apply timestamp2_roundtrip; exact Hd.
     - apply time2_roundtrip; assumption.
-    - apply decimal_roundtrip; assumption.
+    - apply decimal_roundtrip; exact Hd.
     - apply string_roundtrip; exact Hd.
     - apply blob_roundtrip; exact Hd.
     - apply enum_roundtrip; exact Hd.
@@ -714,7 +741,8 @@ Proof.
     - apply bit_roundtrip; exact Hd.
     - apply float_roundtrip; exact Hd.
     - apply double_roundtrip; exact Hd.
-    - apply json_scalar_roundtrip_partial; assumption. }
+    - apply json_scalar_roundtrip_partial; assumption.
+    - apply row_roundtrip; exact Hd. }
   destruct E as [b [Eb Db]]. unfold model_obs. rewrite Eb. cbn [o_data o_typ o_meta o_agree].
   rewrite Db, (meta_ok_model v Hd). reflexivity.
 Qed.
